@@ -23,7 +23,7 @@ import (
 // value classes per parameter kind; every value is carried as a string (TLC integers are 32 bit)
 func taskParam(row, par, ty, cls string, rng *rand.Rand) string {
 	pick := func(low, mid, high, odd string) string {
-		return map[string]string{"low": low, "mid": mid, "high": high, "odd": odd, "huge": high}[cls]
+		return map[string]string{"low": low, "mid": mid, "high": high, "odd": odd, "huge": high, "giant": high}[cls]
 	}
 	switch par {
 	case "method":
@@ -74,7 +74,7 @@ func taskParam(row, par, ty, cls string, rng *rand.Rand) string {
 		}
 		return s
 	case "bytes":
-		n := map[string]int{"low": 0, "mid": 37, "high": 200000, "odd": 1, "huge": 1<<20 + 150001}[cls]
+		n := map[string]int{"low": 0, "mid": 37, "high": 200000, "odd": 1, "huge": 1<<20 + 150001, "giant": 8 << 20}[cls]
 		b := make([]byte, n)
 		rng.Read(b)
 		return string(b)
@@ -285,6 +285,13 @@ func RunTasks(behs [][]Step, tr *Trace, env Env, sum *Summary) {
 		}
 		r := w.Request(refdemon.CheckIn(ag.id, ag.k))
 		tasks, perr := refdemon.ParseTasks(r.Body, ag.k)
+		// a batch above one answer comes in several: the agent checks in until nothing is left
+		for more := 0; more < 2*len(batch) && perr == nil && w.Agent(ag.id) != nil && len(w.Agent(ag.id).JobQueue) > 0; more++ {
+			r2 := w.Request(refdemon.CheckIn(ag.id, ag.k))
+			t2, e2 := refdemon.ParseTasks(r2.Body, ag.k)
+			tasks, perr = append(tasks, t2...), e2
+			sum.Counters["further check-ins for one batch"]++
+		}
 		out := []map[string]any{}
 		clear := false
 		rowOf := map[uint32]map[string]any{}
